@@ -495,7 +495,7 @@ func signerSet(r *core.Rand, n int) []*big.Int {
 func genMusig(g *core.Gen) {
 	r := g.R.Fork()
 	// key aggregation alone: any key format, duplicates, negated keys, sort on/off, tweak chains
-	for i := 0; i < g.N(80, 1200); i++ {
+	for i := 0; i < g.N(60, 1200); i++ {
 		n := r.Intn(8) + 1
 		var ks []string
 		for _, d := range signerSet(r, n) {
@@ -600,7 +600,7 @@ func genMusig(g *core.Gen) {
 		g.Case("keyagg:inf-tweak", true, fmt.Sprintf("C11 keyagg %d %x p:%x,p:%x", r.Intn(2), comp, b32(big.NewInt(5)), b32(add(neg, -5))))
 	}
 	// partial signature verification on its own: a real session's data with one field changed
-	for i := 0; i < g.N(40, 400); i++ {
+	for i := 0; i < g.N(32, 400); i++ {
 		n := r.Intn(4) + 1
 		ds := signerSet(r, n)
 		sort := r.Bool()
@@ -756,7 +756,7 @@ func genMusig(g *core.Gen) {
 		g.Case("pverify:"+class, true, fmt.Sprintf("C11 pverify %x %x %x %s %x %x %s %s", b32(sv), pn, an, keyList, pk, m, sortS, tws))
 	}
 	// full sessions
-	for i := 0; i < g.N(40, 900); i++ {
+	for i := 0; i < g.N(32, 900); i++ {
 		n := r.Intn(8) + 1
 		if r.Chance(1, 3) {
 			n = r.Intn(3) + 1
